@@ -25,7 +25,7 @@ FILTERS = ["g2", "l5", "e3", "x", "g5", "l2", "g-1"]
 MAXES = [0, 1, 2, 3, 4, 50, -1, 1, 2]
 UNIMPL = [0, 18, 21, 22, 27, 32, 33]          # offsets from BEGIN_PR_COMMANDS the server bounces as unimplemented
 DENIED = [10, 11, 12, 16, 17]                  # KICK, ADDBANS, REMOVEBANS, ADDREQUIRES, REMOVEREQUIRES (no privilege)
-IDS = ["t1", "t2", "ab", "q"]
+IDS = ["t1", "t2", "ab", "q", "#42", "#7"]
 IDPATS = ["t1", "t*", "*", "t?", "ab,q", "zz", "q"]
 
 
@@ -198,7 +198,8 @@ class Gen:
         if r < 0.90:
             return j("jr", "-" if rng.random() < 0.15 else self.keys_arg(0.5))
         if r < 0.94:
-            return j("jt", "-" if rng.random() < 0.25 else "&".join(rng.choice(IDPATS) for _ in range(rng.choice([1, 1, 2]))))
+            rr = rng.random()
+            return j("jt", "-" if rr < 0.2 else ("#42" if rr < 0.3 else "&".join(rng.choice(IDPATS) for _ in range(rng.choice([1, 1, 2])))))
         return j("gt", rng.choice(IDS + ["-"]), self.keys_arg(0.2))
 
     def op(self):
@@ -251,6 +252,8 @@ DIRECTED_M = [
     "a;a;p:1:0:*;x:1:1;b:0:s~0~a=1+s~0~a=7+s~0~a=2;b:0:s~0~a=8+s~0~a=0+s~0~a=9;b:0:s~0~a=3+s~0~a=6;jr:1:a@g5;x:1:0",
     # data trees: ids, patterns, none
     "a;a;s:0:0:a=1&a/b=2;x:1:1;gt:1:t1:a;gt:1:t2:*;gt:1:-:a/*;gt:1:ab:zz;jt:1:t1;jt:1:-;jt:1:t*&ab;x:1:0",
+    # request ids of the wrong type: the reply is untagged, a wrong-typed jettison id is "no id"; patterns meet untagged / tagged replies
+    "a;a;s:0:0:a=1;x:1:1;gt:1:#42:a;gt:1:t1:a;gt:1:-:a;jt:1:4*;jt:1:*;jt:1:#42;x:1:0;b:1:gt~#7~*+gt~q~*+jt~q+jt~#7",
     # ping / noop / bounced codes, also inside a batch and for a non-reading client
     "a;a;pi:1:1;no:1;un:1:18;un:1:0;un:1:33;dn:1:10;dn:1:17;x:1:1;b:1:pi~2+un~21+dn~11+no+pi~3;x:1:0",
     # batch nesting cap
@@ -469,6 +472,92 @@ class Flood:
         return ";".join(ops)
 
 
+# ---- systematic streams (deterministic; no rng): every command x every reserved field name x wrong types, and the
+#      command pairs that meet in the sender's own outgoing queue
+
+def _f(name, ty, *vals):
+    return "(%s,%s%s)" % (hexs(name), ty, "".join("," + v for v in vals))
+
+
+def _msg(what, *fields):
+    return "{%s%s}" % (what, "".join("," + f for f in fields))
+
+
+# (type letter, values): right and wrong types, empty values, several values
+TYPED_VALUES = [("i", ["42"]), ("s", [hexs("4*")]), ("l", ["-1"]), ("m", ["{0}"]), ("b", ["1"]), ("s", [""]), ("y", ["7"]),
+                ("s", [hexs("*"), hexs("42")]), ("h", ["-3"]), ("m", ["{0,(76,i,3)}", "{1902537776}"]), ("f", ["1.5"]),
+                ("r", [hexs("\x00\x01")]), ("d", ["nan"]), ("i", ["1", "2", "3"]), ("p", ["1"]), ("e", ["2"]), ("r", [""])]
+
+
+def typed_matrix_cases(names, variants=3):
+    """every what-code of the command range (and one outside) x every reserved PR_NAME_* x three of the typed values above
+    (rotating, so that every (name, typed value) and (command, typed value) pair occurs); the sender does not read during
+    the first half of each case, so that replies are queued when the JETTISON* / later commands arrive"""
+    K = names["PR_NAME_KEYS"]
+    reserved = [v for k, v in sorted(names.items()) if k != "PR_NAME_SUBSCRIBE_PREFIX"] + ["SUBSCRIBE:*", "SUBSCRIBE:a/b"]
+    whats = ["c%d" % o for o in range(0, 34)] + ["1234"]
+    cases = []
+    for ni, nm in enumerate(reserved):
+        for j in range(variants):
+            ops = ["a", "a", "a", "s:0:0:a=1&b=2", "s:2:0:c=3&a/b=4", "p:2:0:*", "x:1:1"]
+            for ci, w in enumerate(whats):
+                ty, vals = TYPED_VALUES[(ci * 7 + ni * 3 + j * 5) % len(TYPED_VALUES)]
+                fields = [_f(nm, ty, *vals)]
+                if nm != K:
+                    fields.append(_f(K, "s", hexs("*")))
+                ops.append("M:1:" + _msg(w, *fields))
+                if ci == len(whats) // 2:
+                    ops += ["s:0:0:a=%d" % (ni % 10), "x:1:0", "x:1:1"]
+            ops += ["s:0:0:zz/y=1", "x:1:0", "r:0:0:zz"]
+            cases.append(";".join(ops))
+    return cases
+
+
+def queue_pair_cases(names, full=True):
+    """a reply-producing command followed by a queue-editing command of the SAME client, with matching / non-matching / wildcard /
+    wrong-typed / empty / missing request ids and keys, (1) inside one PR_COMMAND_BATCH, (2) across reads while the client does
+    not drain its replies, (3) twice over in one batch"""
+    K, F, T = names["PR_NAME_KEYS"], names["PR_NAME_FILTERS"], names["PR_NAME_TREE_REQUEST_ID"]
+    keys = _f(K, "s", hexs("*"))
+    idv = [None] + [_f(T, ty, *vals) for ty, vals in TYPED_VALUES] + [_f(T, "s", hexs("t1")), _f(T, "s", hexs("42"))]
+    gets = []
+    for iv in idv:
+        gets.append(_msg("c19", *([iv] if iv else []), keys))                       # GETDATATREES
+    for iv in idv[:6]:
+        gets.append(_msg("c5", *([iv] if iv else []), keys))                        # GETDATA
+        gets.append(_msg("c1", *([iv] if iv else []), _f("SUBSCRIBE:*", "b", "1")))  # SETPARAMETERS (initial values)
+        gets.append(_msg("c2", *([iv] if iv else [])))                              # GETPARAMETERS
+        gets.append(_msg("c9", *([iv] if iv else [])))                              # PING
+        gets.append(_msg("c19", *([iv] if iv else [])))                             # GETDATATREES without keys
+    jv = [None, _f(T, "s", hexs("4*")), _f(T, "s", hexs("*")), _f(T, "s", hexs("42")), _f(T, "s", hexs("t?")), _f(T, "s", hexs("<1-50>")),
+          _f(T, "s", hexs("zz")), _f(T, "s", ""), _f(T, "s", hexs("t1"), hexs("4*")), _f(T, "i", "42"), _f(T, "m", "{0}"), _f(T, "s", hexs("`")),
+          _f(T, "s", hexs("["))]
+    jets = [_msg("c20", *([v] if v else [])) for v in jv]                            # JETTISONDATATREES
+    jets += [_msg("c7", keys), _msg("c7"), _msg("c7", _f(K, "i", "1")), _msg("c7", keys, _f(F, "m", "{1902537777,(6669,s,76)}")),
+             _msg("c7", keys, _f(T, "s", hexs("4*"))), _msg("c7", _f(K, "s", ""))]  # JETTISONRESULTS
+    pre = ["a", "a", "a", "s:0:0:a=1&b=2", "s:2:0:c=3&a/b=4"]
+    cases, ops, n = [], list(pre), 0
+    ntree = len(idv)          # the GETDATATREES-with-keys requests come first: always paired with every jettison
+    for gi, g in enumerate(gets):
+        for ji, j in enumerate(jets):
+            if not full and gi >= ntree and (gi + ji) % 4 != 0:
+                continue
+            mode = (gi + ji) % 3
+            if mode == 0:
+                ops.append("M:1:" + _msg("c13", "(%s,m,%s,%s)" % (hexs(K), g, j)))
+            elif mode == 1:
+                ops += ["x:1:1", "M:1:" + g, "M:1:" + j, "x:1:0"]
+            else:
+                ops += ["x:1:1", "M:1:" + _msg("c13", "(%s,m,%s,%s,%s,%s)" % (hexs(K), g, g, j, j)), "s:0:0:a=%d" % (n % 10), "M:1:" + j, "x:1:0"]
+            n += 1
+            if n % 12 == 0:
+                cases.append(";".join(ops))
+                ops = list(pre)
+    if len(ops) > len(pre):
+        cases.append(";".join(ops))
+    return cases
+
+
 def directed_flood(names):
     K, F, TR = names["PR_NAME_KEYS"], names["PR_NAME_FILTERS"], names["PR_NAME_TREE_REQUEST_ID"]
     out = []
@@ -580,6 +669,10 @@ class CHECK(vlib.Check):
             out.append(("modelled", "M|" + g.case(rng.choice([8, 12, 20, 30]), rng.choice([2, 2, 3]))))
         for c in directed_flood(names):
             out.append(("flood-directed", "F|" + c))
+        for c in queue_pair_cases(names, full=(tier != "quick")):
+            out.append(("flood-queue-pairs", "F|" + c))
+        for c in typed_matrix_cases(names, variants=(2 if tier == "quick" else 3)):
+            out.append(("flood-typed", "F|" + c))
         mode = bomb_mode(tier)
         if mode:
             for c in bomb_cases(names, mode):
